@@ -312,7 +312,14 @@ impl Go {
                 let struct_name = self.acronyms_to_uppercase(&shared.id.original);
                 let content_field = content_key.to_string().to_camel_case();
                 let tag_field = self.format_field_name(tag_key.to_string(), true);
-                let struct_short_name = shared.id.original[..1].to_lowercase();
+                // The first character, not the first byte: a non-ASCII name cannot be sliced at 1.
+                let struct_short_name = shared
+                    .id
+                    .original
+                    .chars()
+                    .take(1)
+                    .collect::<String>()
+                    .to_lowercase();
                 let variant_key_type = format!(
                     "{}{}s",
                     struct_name,
